@@ -43,6 +43,8 @@ def cases(tier, sd):
         for combo in COMBOS:
             for f in range(nf):
                 out.append(dict(member=m, combo=combo, fseed=100 * sd + 10 * mi + f,
+                                geom=['tensor', 'components', 'partial', 'tensor'][
+                                    (mi + f + COMBOS.index(combo)) % 4],
                                 vmax=[0.3, 0.9, 0.99][(mi + f) % 3],
                                 shape=shapes[(mi + f) % 3],
                                 Lambda=[0.0, 0.2, -0.1][mi % 3], t0=0.3))
@@ -150,8 +152,41 @@ def S_LC3(det):
     return S.LC3.reshape(S.LC3.shape + (1, 1, 1)) * np.sqrt(det)
 
 
+def zero_shift_x(ex):
+    """Same 3+1 data with beta^x := 0 (the fields are only used pointwise)."""
+    ex = dict(ex)
+    b = ex['betaup3'].copy()
+    b[0] = 0.0
+    al, gam = ex['alpha'], ex['gammadown3']
+    bd = np.einsum('ij...,j...->i...', gam, b)
+    G = np.zeros_like(ex['gdown4'])
+    G[0, 0] = -al ** 2 + np.einsum('i...,i...->...', b, bd)
+    G[0, 1:] = G[1:, 0] = bd
+    G[1:, 1:] = gam
+    db = ex['dtbetaup3'].copy()
+    db[0] = 0.0
+    ex.update(betaup3=b, dtbetaup3=db, betadown3=bd, gdown4=G,
+              gup4=np.moveaxis(np.linalg.inv(np.moveaxis(G, (0, 1), (-2, -1))), (-2, -1), (0, 1)),
+              nup4=np.concatenate([(1 / al)[None], -b / al]))
+    return ex
+
+
 def inputs_for(spec, ex, fl, combo):
     inp = harness.adm_inputs(ex)
+    if spec.get('geom', 'tensor') != 'tensor':
+        # the same geometry given component by component; 'partial': the
+        # vanishing beta^x is simply not supplied
+        ij = [(0, 0), (0, 1), (0, 2), (1, 1), (1, 2), (2, 2)]
+        inp = {'alpha': ex['alpha'], 'dtalpha': ex['dtalpha']}
+        for nm, (i, j) in zip(['gxx', 'gxy', 'gxz', 'gyy', 'gyz', 'gzz'], ij):
+            inp[nm] = ex['gammadown3'][i, j]
+        for nm, (i, j) in zip(['kxx', 'kxy', 'kxz', 'kyy', 'kyz', 'kzz'], ij):
+            inp[nm] = ex['Kdown3'][i, j]
+        for i, c in enumerate('xyz'):
+            if spec['geom'] == 'partial' and c == 'x':
+                continue
+            inp['beta' + c] = ex['betaup3'][i]
+            inp['dtbeta' + c] = ex['dtbetaup3'][i]
     if combo == 'full':
         inp.update(rho0=fl['rho0'], eps=fl['eps'], press=fl['press'],
                    w_lorentz=fl['W'], velx=fl['v'][0], vely=fl['v'][1],
@@ -181,6 +216,8 @@ def run_case(spec):
     lo, d = (-0.9, -0.7, -0.5), (0.31, 0.37, 0.41)
     x, y, z = harness.coords(n, lo, d)
     ex = S.exact_fields(st, spec['t0'], x, y, z, level='adm')
+    if spec.get('geom') == 'partial':
+        ex = zero_shift_x(ex)
     combo = spec['combo']
     fl = fluid(spec, ex, x, y, z)
     if combo == 'Tdown4':
@@ -191,7 +228,7 @@ def run_case(spec):
         ex['Tdown4_in'] = exf['Tdown4'] + Rn + np.einsum('ab...->ba...', Rn)
     want = expected(spec, ex, fl, x, y, z, combo)
     fd = harness.make_fd(n, lo, d, order=4)
-    orders = [('fresh', None), ('Tdown4_first', ['Tdown4', 'st_Ricci_down4'])]
+    orders = [('fresh', None), ('Tdown4_first', ['Tdown4', 'st_Ricci_down4']), ('shuffled', None)]
     for oname, first in orders:
         rel = harness.make_rel(fd, inputs_for(spec, ex, fl, combo),
                                Lambda=spec['Lambda'],
@@ -206,6 +243,14 @@ def run_case(spec):
                 res['monitor']['Ttrace_arm_projection'] = res['monitor'].get(
                     'Ttrace_arm_projection', 0) + int('Tdown4' not in rel.data)
             keys = ['Ttrace', 'st_Ricci_down3'] + [k for k in FLUID_KEYS if k in want]
+            if oname == 'shuffled':      # every key gets its turn at being asked first
+                prm = np.random.default_rng([int(spec['fseed']), 77]).permutation(len(keys))
+                keys = [keys[i] for i in prm]
+                # (st_Ricci_down4 without Tdown4 in the cache is the geometric
+                #  Ricci tensor by design: keep it behind Tdown4)
+                a, b = keys.index('Tdown4'), keys.index('st_Ricci_down4')
+                if b < a:
+                    keys[a], keys[b] = keys[b], keys[a]
             for k in keys:
                 res['observations'] += 1
                 try:
@@ -235,7 +280,8 @@ def run_case(spec):
                 if not err <= TOL * sc + 1e-12:
                     common.add_violation(res, f"{k} [{combo}]", {
                         "order": oname, "max_err": float(err), "scale": float(sc),
-                        "vmax": spec['vmax'], "gauge": gclass(spec['member'])})
+                        "vmax": spec['vmax'], "gauge": gclass(spec['member']),
+                        "geometry_given_as": spec.get('geom', 'tensor')})
                 elif sc > 0:
                     res['nontrivial'].append([k, combo, gclass(spec['member']), oname])
             # second pass: every cached value must still be what was handed out
@@ -248,5 +294,32 @@ def run_case(spec):
                 if val.shape == w.shape and np.abs(val - w).max() > TOL * max(np.abs(w).max(), 1e-300) + 1e-12:
                     common.add_violation(res, f"{k} changed in the cache after later requests [{combo}]",
                                          {"order": oname})
+        del rel
+    # every key asked FIRST on its own fresh instance (a shortcut that looks at
+    # what happens to be cached is decided at that moment)
+    solo = ['Ttrace', 'st_Ricci_down3'] + [k for k in FLUID_KEYS if k in want and not k.startswith('u.u')]
+    if combo != 'Tdown4':
+        # without Tdown4 in the cache st_Ricci_down4 is (by design) the geometric
+        # Ricci tensor, which random matter does not source
+        solo = [k for k in solo if k != 'st_Ricci_down4']
+    for k in solo:
+        rel = harness.make_rel(fd, inputs_for(spec, ex, fl, combo), Lambda=spec['Lambda'],
+                               clear_cache_every_nbr_calc=10**9, memory_threshold_inGB=1e9)
+        res['observations'] += 1
+        try:
+            with common.Quiet():
+                val = np.array(rel[k])
+        except Exception as e:
+            common.add_violation(res, f"{k} raises {type(e).__name__}",
+                                 {"combo": combo, "err": repr(e)[:200], "order": "asked first"})
+            continue
+        w = want[k]
+        diff = np.abs(val - w) if val.shape == w.shape else np.array(np.inf)
+        if combo == 'rho_rho0' and k in ('eps', 'enthalpy'):
+            diff = np.where(fl['rho0'] != 0, diff, 0.0)
+        if not diff.max() <= TOL * np.abs(w).max() + 1e-12:
+            common.add_violation(res, f"{k} [{combo}]", {
+                "order": "asked first on a fresh instance", "max_err": float(diff.max()),
+                "gauge": gclass(spec['member']), "geometry_given_as": spec.get('geom', 'tensor')})
         del rel
     return res
